@@ -13,7 +13,7 @@ import (
 
 // c17Case is one request (JSON-able, replayable).
 type c17Case struct {
-	Kind     string            `json:"kind"`           // mutation | upload | query | direct | after (a request, then probe requests)
+	Kind     string            `json:"kind"`           // mutation | upload | query | direct | after (a request, then probe requests) | prefix-reuse
 	Sub      string            `json:"sub,omitempty"`  // after, when Mutation is empty: upload (default) | query
 	Open     string            `json:"open,omitempty"` // after: cold (cache closed and loaded again from its files: no bug in memory) | warm
 	Mutation string            `json:"mutation,omitempty"`
@@ -309,6 +309,18 @@ func c17GenCases(r *mon.Run, s *GQLSchema) []c17Case {
 			}
 			for _, v := range []string{"overview", "bug-detail", "gitfile"} {
 				add(c17Case{Kind: "query", Auth: auth, Variant: v})
+			}
+		}
+	}
+	// a server that lives on: a prefix that was unique when it was first used designates two bugs later (c17_prefix.go)
+	for rep := 0; rep < r.Pick(1, 4); rep++ {
+		for _, v := range []string{"addComment", "setTitle"} {
+			has := false
+			for _, f := range s.Mutations() {
+				has = has || f.Name == v
+			}
+			if has {
+				add(c17Case{Kind: "prefix-reuse", Auth: true, Variant: v, Gen: "prefix-reuse"})
 			}
 		}
 	}
